@@ -135,7 +135,7 @@ claim("C01", "Coq end-to-end theorem load(serialize s) over a whole-sprite seria
       "round-trip theorem per chunk kind (layer, tags, slice with keys/9-slice/pivot, palette, external files, tileset header, user data, cel header and the four cel "
       "contents, colour profile, tilemap header; signed fields at their extremes; names any valid UTF-8; reserved fields arbitrary; any trailing bytes), the dispatcher "
       "lemmas C01_process_*, and the accessor laws C01_layer_by_name_lowest / C01_tag_by_name_lowest / C01_get_tag_range / C01_iteration / C01_layers_in_order, for all "
-      "values with no size bound. End to end (Props/C01_e2e.v, 33 theorems): for every well-formed chunk program s (Spec/Serialize.v: a whole sprite with every encoding "
+      "values with no size bound. End to end (Props/C01_e2e.v, 35 theorems): for every well-formed chunk program s (Spec/Serialize.v: a whole sprite with every encoding "
       "choice - junk in unused fields, chunk tails, either chunk-count field, raw or compressed cels, ignorable chunks anywhere) C01_framing_serialize, "
       "C01_assemble_serialize, C01_load_serialize (load (serialize s ++ tail) = fold of the chunk events, then validate) and C01_e2e_headline: under sprite_ok the load "
       "succeeds and reports exactly the canvas, format, frame count and durations, layers / tags / slices with keys in file order with the user data the window rule "
@@ -145,7 +145,7 @@ claim("C01", "Coq end-to-end theorem load(serialize s) over a whole-sprite seria
       "C01_e2e_headline_ts / C01_load_serialize_total_ts (Proofs/EndToEndTotalTs.v) state the same for programs WITH tileset chunks, tilemap layers and tilemap cels "
       "(sprite_ok_ts: the last tileset chunk of every id carries pixels that validate, every tilemap layer names an id that has a chunk, every tilemap cel lies on a tilemap "
       "layer with its largest tile id below that tileset's tile count), adding the content of every cel and the tileset under every id to the reported values; "
-      "C01_sprite_ok_special_case shows sprite_ok is the tile-free special case, C01_e2e_tilesets_example_ok that the tile conditions are satisfiable. "
+      "C01_load_serialize_iff: a serialised well-formed program loads exactly when sprite_ok_ts holds (the conditions are necessary too - C01_fold_ok_inv and the inversion of validate), C01_sprite_ok_special_case shows sprite_ok is the tile-free special case, C01_e2e_tilesets_example_ok that the tile conditions are satisfiable. "
       "Modelled, not verified: decoders of Model/Chunks.v against the chunk parsers in src/ (tied by the correspondence run).",
       "DESIGN.md section 5, C01")
 claim("C11", "Coq theorems for the three palette decoders (functional specs, finite 6-bit sweep), precedence and completeness + palette-program correspondence run",
